@@ -123,6 +123,11 @@ def domain(sort, quick=True):
         return list(range(0, 7))
     if sort == "bool":
         return [False, True]
+    if sort == "Str":
+        import itertools as _it
+
+        alpha = "1234ULDRx"
+        return ["".join(w) for k_ in range(0, 4 if quick else 5) for w in _it.product(alpha, repeat=k_)]
     if sort in ("Mesh", "MeshPatt"):
         import random
 
